@@ -37,7 +37,9 @@ class EnumVal:
 
 
 PRIMS = {"Int8ub": (1, False), "Int8sb": (1, True), "Int16ub": (2, False), "Int16sb": (2, True), "Int32ub": (4, False),
-         "Int32sb": (4, True), "Byte": (1, False)}
+         "Int32sb": (4, True), "Byte": (1, False), "Int24ub": (3, False), "Int64ub": (8, False), "Int64sb": (8, True),
+         "Int8ul": (1, False), "Int8sl": (1, True), "Int16ul": (2, False), "Int16sl": (2, True), "Int32ul": (4, False), "Int32sl": (4, True),
+         "Int16un": (2, False), "Int16sn": (2, True), "Int32un": (4, False), "Int32sn": (4, True)}
 
 
 class Module:
@@ -82,7 +84,8 @@ class Module:
         if isinstance(n, ast.Attribute):
             if self.is_c(n):
                 if n.attr in PRIMS:
-                    return N("Int", {"size": PRIMS[n.attr][0], "signed": PRIMS[n.attr][1]}, line=n.lineno)
+                    endian = "big" if n.attr.endswith("b") or n.attr == "Byte" or PRIMS[n.attr][0] == 1 else ("little" if n.attr.endswith("l") else "native")
+                    return N("Int", {"size": PRIMS[n.attr][0], "signed": PRIMS[n.attr][1], "endian": endian, "type": n.attr}, line=n.lineno)
                 if n.attr in ("Pass", "Error"):
                     return N(n.attr, line=n.lineno)
                 if n.attr == "this":
@@ -157,6 +160,10 @@ class Module:
                 return mk(k, expr=args[0])
             if k == "BitsInteger":
                 return mk(k, bits=args[0])
+            if k == "BytesInteger":
+                return mk("Int", size=args[0], signed=bool(kw.get("signed", args[1] if len(args) > 1 else False)), endian="little" if kw.get("swapped", False) else "big", type="BytesInteger")
+            if k == "Optional":
+                return mk("Select", subs=[args[0], N("Pass")])
             if k == "Padding":
                 return mk(k, size=args[0])
             if k in ("PascalString", "PaddedString"):
@@ -386,3 +393,54 @@ def first_octets(n: N, depth=0):
     if k in ("Enum", "ExprAdapter", "Peek"):
         return None
     return None
+
+
+def children(n: N):
+    """(label, child) pairs"""
+    k = n.kind
+    a = n.a
+    out = []
+    if k in ("Struct", "BitStruct", "FocusedSeq"):
+        for i, s in enumerate(a["subs"]):
+            if isinstance(s, N):
+                out.append((("sub", i), s))
+    elif k == "Select":
+        for i, s in enumerate(a["subs"]):
+            if isinstance(s, N):
+                out.append((("alt", i), s))
+    elif k == "Switch":
+        for key, s in a["cases"].items():
+            if isinstance(s, N):
+                out.append((("case", key), s))
+        if isinstance(a.get("default"), N):
+            out.append((("default",), a["default"]))
+    elif k == "IfThenElse":
+        out.append((("then",), a["then"]))
+        out.append((("else",), a["els"]))
+    else:
+        for key in ("sub",):
+            if isinstance(a.get(key), N):
+                out.append(((key,), a[key]))
+    return out
+
+
+def routes(root: N, target: N, prefix=None, depth=0):
+    """all structural routes [(node, label), ...] from root to the node with target's identity"""
+    prefix = prefix or []
+    if depth > 40:
+        return
+    if root.ident is target.ident:
+        yield list(prefix)
+        return
+    for label, c in children(root):
+        yield from routes(c, target, prefix + [(root, label)], depth + 1)
+
+
+def all_nodes(root: N, seen=None):
+    seen = seen if seen is not None else set()
+    if id(root) in seen:
+        return
+    seen.add(id(root))
+    yield root
+    for _, c in children(root):
+        yield from all_nodes(c, seen)
